@@ -283,6 +283,27 @@ func (g *bGen) genCase(version uint32, idx int) *bCase {
 	for i := 0; i < nDev; i++ {
 		g.deviate(c)
 	}
+	// a fraction of the cases keeps its orders in a real clientdb store (not with sidecar
+	// tickets, whose partial mock tickets the store cannot serialise; nor with duplicates)
+	pReal := 10
+	for _, d := range c.Devs {
+		switch d {
+		case "our-min-match", "our-unfulfilled", "their-units", "drop-match", "extra-match":
+			// the stored size terms decide these cases: more often against the real store
+			pReal = 2
+		}
+	}
+	if rng.Intn(pReal) == 0 {
+		ok := true
+		seen := map[string]bool{}
+		for _, o := range c.Env.Orders {
+			if o.Sidecar != 0 || seen[o.Nonce] {
+				ok = false
+			}
+			seen[o.Nonce] = true
+		}
+		c.RealStore = ok
+	}
 	return c
 }
 
